@@ -386,6 +386,8 @@ def render(events):
                     raise Unknown("format argument")
                 if spec == "":
                     return str(a[1]) if a[0] != "char" else chr(a[1])
+                if spec == ":?":
+                    return '"%s"' % a[1] if a[0] == "str" else (str(a[1]) if a[0] != "char" else "'%s'" % chr(a[1]))
                 mm = re.match(r"^:(0?)(\d*)([xX]?)$", spec)
                 if not mm:
                     raise Unknown("format spec " + spec)
